@@ -10,6 +10,10 @@ Open Scope Z_scope.
 Lemma arg_index_safe : forallb (site_ok registrations) arg_index_sites = true.
 Proof. vm_compute. reflexivity. Qed.
 
+(* ... and every site is owned by at least one registration, so none of them passes vacuously *)
+Lemma arg_index_sites_owned : forallb (site_owned registrations) arg_index_sites = true.
+Proof. vm_compute. reflexivity. Qed.
+
 (* non-constant indexes occur only where the model has a proved loop *)
 Lemma dynamic_sites_covered : dynamic_ok dynamic_sites = true.
 Proof. vm_compute. reflexivity. Qed.
